@@ -15,10 +15,9 @@
 From SV Require Export Proc Json MD5 Canon WsNames.
 Import ListNotations.
 
-(* directory names that Project._job_dirs yields: JOB_ID_REGEX.match, a PREFIX match on 32 lower-case hex
-   characters ("<32 hex>.bak" is listed too) *)
+(* directory names that Project._job_dirs yields: JOB_ID_REGEX.fullmatch, exactly 32 lower-case hex characters *)
 Definition id_match (n : str) : bool :=
-  Nat.leb 32 (length n) && forallb lower_hex (firstn 32 n).
+  Nat.eqb (length n) 32 && forallb lower_hex n.
 
 Definition job_dirs (f : fs) (wsd : path) : list str :=
   match listdir f wsd with
@@ -179,8 +178,18 @@ Section PROGS.
                     | FErr ENOENT => phase2 false
                     | FErr e2 => k (inr (POs e2))
                     | FOk _ =>
-                        if dest_exists_e e then k (inr (PExn EDestinationExists))
-                        else match e with ENOENT => phase2 false | _ => k (inr (POs e)) end
+                        (* the in-memory data is restored from the restored file (_load_from_resource) *)
+                        Do (CRead fname) (fun r3 =>
+                          let continue_ : prog A :=
+                            if dest_exists_e e then k (inr (PExn EDestinationExists))
+                            else match e with ENOENT => phase2 false | _ => k (inr (POs e)) end in
+                          match r3 with
+                          | FErr ENOENT => continue_
+                          | FErr e3 => k (inr (POs e3))
+                          | FOk (RData d) =>
+                              match c_json d with Some _ => continue_ | None => k (inr (PExn EValueError)) end
+                          | FOk _ => k (inr (PExn EOther))
+                          end)
                     end)
               end)
         end).
